@@ -21,9 +21,9 @@ PROP = dict(
                  "optional u64 timestamp; lookups through lookup_all_phrases (first = usize::MAX)",
                  "the statement is about successful writes (after the F13 fix `write` fails loudly beyond the 16-bit limits and "
                  "beyond der's 256 MiB Length::MAX); `writes_within_limits` proves success inside the limits",
-                 "leaves that mix single characters with longer phrases: the comparator of `write` is not a total preorder there; "
-                 "the model reproduces std's insertion sort (exact for <= 20 phrases, generated leaves of that kind stay below); "
-                 "the theorems claim an order only for unmixed leaves, as the property does"],
+                 "`slice::sort_by` is modelled as a stable sort (insertion from the right); since the comparator is a total "
+                 "preorder after the F41 fix (`comparator_total_preorder`) every stable sort gives this result, whatever "
+                 "algorithm std picks for the leaf's size (leaves of > 20 phrases are generated: generator_stats big_leaves)"],
 )
 
 MANIFEST = dict(
